@@ -27,7 +27,11 @@ psCore == <<world, cfg, now, peer, tip, tipTD, lastN>>
 
 PeerNames == cfg.peers
 LastN == cfg.lastN
-MsgTimeout == 2   \* ticks
+\* time: `now` counts abstract units; a request / an unchanged last state times out after MsgTimeout units, the
+\* refresh asks for a new last state when the current one is older than RefreshLag units.  Bounded models use
+\* (2, 0); traces of the implementation count seconds and use the documented (60, 8).
+MsgTimeout == cfg.msgTimeout
+RefreshLag == cfg.refreshLag
 
 NoReq == [on |-> FALSE, last |-> 0, skip |-> FALSE, fork |-> FALSE,
           startNum |-> 0, start |-> 0, bnd |-> 0, ds |-> <<>>]
@@ -204,7 +208,7 @@ TimedOut(s) ==
 
 NeedsNewState(s) ==
     \/ s.st = "Init"
-    \/ s.st \in {"OnlyLS", "Ready"} /\ s.lastTs < now
+    \/ s.st \in {"OnlyLS", "Ready"} /\ s.lastTs + RefreshLag < now
 
 NeedsNewProof(s) ==
     \/ s.st = "OnlyLS"
